@@ -198,8 +198,10 @@ impl<'a, 'b> PartialEq<Template<'b>> for Template<'a> {
 
             match (&ap.0, &bp.0) {
                 (PartKind::Text { value: ref a }, PartKind::Text { value: ref b }) => {
-                    let a = a.get();
-                    let b = b.get();
+                    // Compare bytes rather than `str`s; fragment boundaries
+                    // in one template may fall inside a character of the other
+                    let a = a.get().as_bytes();
+                    let b = b.get().as_bytes();
 
                     let at = &a[ati..];
                     let bt = &b[bti..];
